@@ -387,7 +387,15 @@ func c16Run(t *testing.T, mode string, r *kit.Result, seed int64) {
 		}
 		var points []c16Point
 		if mode == "fault" {
-			for _, op := range ops {
+			// quick tier: of the auto-rebuild variants of a scenario (name@mode) every other fault point is
+			// taken, the seed's parity decides which half; the manual-mode scenarios, the generated start
+			// states and the thorough tier take every point
+			half := kit.N(1, 0) == 1 && strings.Contains(sc.name, "@") && only == ""
+			for k, op := range ops {
+				if half && (int64(k)+seed)%2 != 0 {
+					r.Count("fault_points_left_to_other_seed_parity", 1)
+					continue
+				}
 				points = append(points, c16Point{id: sc.name + "|fault|" + op.id(), op: op})
 			}
 		} else {
